@@ -54,9 +54,37 @@ def synchronised_high_first_low_second(k, seed):
     return _df(rows), {'k': k, 'seed': seed, 'layout': 'synchronised_high_first_low_second', 'ceilos': ['A', 'B'], 'rows': len(rows)}
 
 
+def deck_exactly_at_a_non_integer_limit(k, seed):
+    """a site working in metres: MSA and buffer are metre values converted to ft at 0.01 resolution, and a deck sits *exactly* at
+    MSA + MSA_HIT_BUFFER (the floating-point sum the package computes): it is not above the limit"""
+    from .scenes import _df
+    rng = random.Random(seed * 83 + k)
+    # pairs for which the floating-point sum does not "subtract back" exactly: any re-association of `h > MSA + buffer` shows there
+    cands = []
+    for m_ in range(100, 1500, 50):
+        for b_ in range(50, 800, 50):
+            a, b = round(m_ * 3.28084, 2), round(b_ * 3.28084, 2)
+            if (a + b) - a != b or (a + b) - b != a:
+                cands.append((a, b))
+    msa, buf = rng.choice(cands)
+    lim = msa + buf
+    rows = []
+    for t in range(50):
+        dt = -1200.0 + 24.0 * t
+        rows.append(('A', dt, 400.0 + (t % 3), 1) if t % 2 else ('A', dt, lim, 1))
+        if t % 2 and t % 4 == 1:
+            rows.append(('A', dt, lim, 2))
+        if t % 10 == 0:
+            rows.append(('A', dt, lim + 500.0, 2))
+    return _df(rows), {'k': k, 'seed': seed, 'layout': f'deck_exactly_at_a_non_integer_limit({msa},{buf})', 'ceilos': ['A'], 'rows': len(rows)}, msa, buf
+
+
 def check(k, seed):
     rng = random.Random(seed * 13 + k)
-    if k % 6 == 2:
+    if k % 12 == 5:
+        df, desc, msa_, buf_ = deck_exactly_at_a_non_integer_limit(k, seed)
+        prms = {'MSA': msa_, 'MSA_HIT_BUFFER': buf_, 'MAX_HITS_OKTA0': 3}
+    elif k % 6 == 2:
         df, desc = synchronised_high_first_low_second(k, seed)
         prms = {'MSA': 5000, 'MSA_HIT_BUFFER': 500}
     elif k % 6 == 4:
